@@ -20,6 +20,8 @@ CORPUS = [
     "let a = num `{`;\nres / on get -> <a>;\n",
     'use "";\n', 'use "http://[::1";\nres / on get -> <>;\n', 'use "main.oal";\n',
     "res", "let", "let a", "let a =", "res /", "res / on", "res / on get", "res / on get ->", "rec", "rec x", "'p", "@", "a.b.c", "a.", ".a",
+    "let b = a. ;", "res a. on get -> <>;", "let b = a.b.c;", "let b = m. x;", "res / on get -> <a.>;", "let a = num;\nlet b = a.;\nres / on get -> <b>;\n",
+    "let b = a . ;", "let b = .a;", "let b = a..b;", "let f x = x. ;\nres / on get -> <f num>;\n",
     "let @f x = x;", "res concat;", "res concat /a;", "res (concat (/a) (/b) (/c));", "let concat = num;", "res / on get -> concat;",
     "let a = b; let b = a; res a;", "let a = a; res / on get -> <a>;", "let f x = f; res / on get -> <f num>;",
     "res / on get -> <status=0, {}>;", "res / on get -> <status=18446744073709551615, {}>;", "res / on get -> <status=18446744073709551616, {}>;",
